@@ -160,7 +160,7 @@ class WorldT7 : public World
         plan["sched_seed"] = (std::uint64_t)rs.next();
         double yp[] = {1.0, 0.5, 0.2, 0.05};
         plan["yield_prob"] = yp[rs.below(4)];
-        plan["step_budget"] = 100000;
+        plan["step_budget"] = 60000;
         return plan;
     }
 
